@@ -97,7 +97,7 @@ where
                 let _ = phase;
                 continue;
             }
-            let m = select(&ends, x) as f64;
+            let m = lib!(tag.segments[select(&ends, x)].poly.evaluate(x)); // = the tag, by the piece's own evaluation
             self::cmp3(ctx);
             if !same_bits(direct, m) || !same_bits(stateful, m) {
                 fail!(
@@ -112,7 +112,7 @@ where
     for &x in ends.iter().take(8) {
         let mut fresh = lib!(PiecewiseEvaluator::new(&tag.segments));
         let got = lib!(fresh.evaluate(x));
-        let m = select(&ends, x) as f64;
+        let m = lib!(tag.segments[select(&ends, x)].poly.evaluate(x)); // = the tag, by the piece's own evaluation
         ctx.comparisons += 1;
         if !same_bits(got, m) {
             fail!("{tyname}::arbitrary value with ends {:?}: a fresh stateful evaluator queried at x={} uses segment {} but direct evaluation / the selection model segment {}", ends, hex(x), got, m);
@@ -124,7 +124,7 @@ where
         fail!("evaluate_v yielded {} values for {} arguments", batch.len(), sorted.len());
     }
     for (i, &x) in sorted.iter().enumerate() {
-        let m = select(&ends, x) as f64;
+        let m = lib!(tag.segments[select(&ends, x)].poly.evaluate(x)); // = the tag, by the piece's own evaluation
         ctx.comparisons += 1;
         if !same_bits(batch[i], m) {
             fail!("{tyname}::arbitrary value with ends {:?}: evaluate_v at x={} uses segment {} but the selection model says {}", ends, hex(x), batch[i], m);
